@@ -131,6 +131,17 @@ def theory_configs(r, tier):
                      'delays': [0, int(150 * T), int(250 * T)]}))
     # a slow reference solver (-c) under automatic time limits: the limit of
     # the reference solver derives from ITS golden run
+    # a slow golden run (automatic limit 4.5 s), fast checks once the slow
+    # part is gone, and in one run only checks that take up to 2.5 s: the
+    # limit is fixed after the golden run, whatever is accepted later
+    if calib < 12:
+        slow = hang.replace('(assert (> a 7))', '(assert (> a slowpart))')
+        out.append((slow, {'mode': 'contains', 'markers': ['bug'],
+                           'slow_with': {'token': 'slowpart', 'ms': 2000}},
+                    ['--strategy', 'ddmin', '-j', '1', '--disable-all',
+                     '--erase-node'],
+                    {'strategy': 'ddmin', 'jobs': 1, 'n': 'G',
+                     'delays': [0, 1200, 2500]}))
     # (the automatic limit is (golden + 1 s) * 1.5: its margin over the
     # delays used here is 1.3 s and cannot be scaled, so the configuration is
     # left out on a machine too loaded for that)
